@@ -98,6 +98,7 @@ func runC14(c *Ctx) []Violation {
 	env.Apply()
 	s := sched.New(c.T)
 	s.Policy = policy
+	s.Soft = sched.DrawSoft(c.T, k)
 	fns := make([]func(*sched.Task), k)
 	for i := range tasks {
 		t := tasks[i]
@@ -113,6 +114,9 @@ func runC14(c *Ctx) []Violation {
 	c.Count("yields", int64(s.Steps))
 	c.Count("task-switches", int64(s.Switches))
 	c.SigMix(s.TraceSig())
+	for _, r := range res {
+		c.Count("soft-yields-taken", int64(r.SoftTaken))
+	}
 	if s.Switches > 0 {
 		c.Nontrivial = true
 	}
